@@ -176,6 +176,9 @@ def check_record(row, pre, logdir):
         want("do.ioinits(per)", data(rec["per"]) if "per" in rec else [], [x for x in a["ioinits"] if x[0] != "inode"])
         want("do.inits(cum)", data(rec["cum"]) if "cum" in rec else [], [x for x in a["inits"] if x[0] != "name"])
         for key, conn in (("parms", "from"), ("ioinits", "for"), ("inits", "qua")):
+            if conn in rec and var[conn] > 2:       # relative address: how a relation is written into the path is not documented
+                want("do.prerefs.%s(%s)" % (key, conn), 1, len(a["prerefs"][key]))
+                continue
             want("do.prerefs.%s(%s)" % (key, conn), [source(rec[conn])] if conn in rec else [], a["prerefs"][key])
     elif verb == "logger":
         t = _tasker(pre, "lg")
